@@ -39,6 +39,9 @@ func (p *Profile) props(m Mismatch) map[string]bool {
 	switch what {
 	case "panic":
 		out["C01"] = true
+		if m.Call != nil && m.Call.Final == "accept" {
+			out["C02"] = true // a well-formed, profile-compatible stream must decode
+		}
 	case "field":
 		mn, s := num(r["m"]), num(r["s"])
 		pf := p.bySindex(mn, s)
